@@ -395,8 +395,10 @@ def treeinfo_canonical(sym, vperm, iperm, cperm, dumps, name_set=0):
     sums = [sym.str("sum%d" % i, 2, minlen=1, alphabet="hexlower") for i in range(3)]
     vspec = [("Server", "Server", None, "variant"), ("Client", "Client", None, "variant"), ("HA", "Server-HA", "Server", "addon")]
     # names whose plain string order differs from "natural" orders: digit runs of different width, zero padding, upper/lower case
-    ispec = [[("x86_64", "boot.iso"), ("x86_64", "Kernel"), ("xen", "kernel")], [("x86_64", "initrd7"), ("x86_64", "initrd07"), ("x86_64", "initrd10")]][name_set]
-    cspec = [["images/boot.iso", "Images/efiboot.img", "LiveOS/squashfs.img"], ["images/disc2.iso", "images/disc10.iso", "images/disc02.iso"]][name_set]
+    ispec = [[("x86_64", "boot.iso"), ("x86_64", "Kernel"), ("xen", "kernel")], [("x86_64", "initrd7"), ("x86_64", "initrd07"), ("x86_64", "initrd10")],
+             [("x86_64", "boot.iso"), ("x86_64", "Kernel"), ("xen", "kernel")]][name_set]
+    cspec = [["images/boot.iso", "Images/efiboot.img", "LiveOS/squashfs.img"], ["images/disc2.iso", "images/disc10.iso", "images/disc02.iso"],
+             ["images/boot.iso", "./images/boot.iso", "images//boot.iso"]][name_set]          # 2: three spellings of one path
 
     def build(vo, io_, co, platforms):
         ti = T.TreeInfo()
@@ -429,7 +431,10 @@ def treeinfo_canonical(sym, vperm, iperm, cperm, dumps, name_set=0):
             platform, name = ispec[i]
             ti.images.images.setdefault(platform, {})[name] = imgs[i]
         for i in co:
-            ti.checksums.add(cspec[i], "sha256", sums[i])
+            if name_set == 2:
+                ti.checksums.checksums[cspec[i]] = ["sha256", sums[i]]          # the public table, filled directly: keys are kept as spelled
+            else:
+                ti.checksums.add(cspec[i], "sha256", sums[i])
         return ti
     reference = build([0, 1, 2], [0, 1, 2], [0, 1, 2], ["x86_64", "xen", "ppc64le"]).dumps()
     other = build(vperm, iperm, cperm, ["ppc64le", "xen", "x86_64"])
@@ -467,6 +472,7 @@ def jobs(tier, seed):
     for pi in (range(6) if big else [(seed) % 6, (seed + 3) % 6]):
         out.append({"harness": "treeinfo_canonical", "params": {"vperm": PERMS3[pi], "iperm": PERMS3[(pi + 2) % 6], "cperm": PERMS3[(pi + 4) % 6], "dumps": 2}})
         out.append({"harness": "treeinfo_canonical", "params": {"vperm": PERMS3[pi], "iperm": PERMS3[(pi + 1) % 6], "cperm": PERMS3[(pi + 3) % 6], "dumps": 2, "name_set": 1}})
+        out.append({"harness": "treeinfo_canonical", "params": {"vperm": PERMS3[pi], "iperm": PERMS3[(pi + 1) % 6], "cperm": PERMS3[(pi + 5) % 6], "dumps": 2, "name_set": 2}})
     for other_first in (False, True):
         out.append({"harness": "images_caller_lists", "params": {"other_first": other_first}})
     for primed_by in ("dump", "load"):
